@@ -51,7 +51,7 @@ var tokenContract = common.HexToAddress("0x71d9cfd1b7adb1e8eb4c193ce6ffbe19b4aee
 // ---------------------------------------------------------------------------
 // protocol helpers
 
-const hashChars = 16 // bytes of a hash shown on the line protocol
+const hashChars = 7 // bytes of a hash shown on the line protocol (fits an unboxed Lean Nat)
 
 func hs(h common.Hash) string { return hx.Hex(h[:hashChars]) }
 
@@ -62,6 +62,22 @@ func hlist(hsx []common.Hash) string {
 	p := make([]string, len(hsx))
 	for i, h := range hsx {
 		p[i] = hs(h)
+	}
+	return strings.Join(p, ",")
+}
+
+func batchString(items []kv) string {
+	if len(items) == 0 {
+		return "-"
+	}
+	p := make([]string, len(items))
+	for j, it := range items {
+		k := []byte(it.k)
+		if len(k) != 32 {
+			p[j] = "x" + hx.Hex(k)
+			continue
+		}
+		p[j] = hx.Hex(k[:hashChars])
 	}
 	return strings.Join(p, ",")
 }
@@ -173,6 +189,19 @@ func newWorld(r *runner) *world {
 	return w
 }
 
+// purgeInModel forgets what a commit removed from the memory cache.
+func (w *world) purgeInModel() {
+	cached := map[common.Hash]bool{}
+	for _, h := range w.sdb.TrieDB().Nodes() {
+		cached[h] = true
+	}
+	for h := range w.inModel {
+		if !cached[h] {
+			delete(w.inModel, h)
+		}
+	}
+}
+
 func (w *world) restart() {
 	w.sdb = account.NewDatabase(w.rec)
 	w.inModel = map[common.Hash]bool{}
@@ -264,7 +293,10 @@ func (w *world) code() []byte {
 	rg := w.r.rng
 	switch rg.Intn(10) {
 	case 0:
-		return []byte{}
+		if rg.Chance(1, 6) {
+			return []byte{}
+		}
+		return rg.Bytes(2)
 	case 1:
 		return rg.Bytes(1)
 	case 2:
@@ -593,21 +625,51 @@ func (w *world) emitCache(root common.Hash) {
 			fmt.Fprintf(os.Stderr, "DEBUG unreachable cached %x kind=%s size=%d root=%x\n", h[:4], d.kind, d.size, root[:4])
 		}
 	}
-	for _, h := range order {
+	for _, h := range topoOrder(order, func(h common.Hash) []common.Hash {
+		d := desc[h]
+		if d.isLeaf {
+			return append(append([]common.Hash{}, d.need...), d.aRoot, d.aCode)
+		}
+		return d.need
+	}) {
 		d := desc[h]
 		w.ever[h] = d.kind
 		if w.inModel[h] {
 			continue
 		}
 		w.inModel[h] = true
-		w.r.out.Emit(fmt.Sprintf("ins %s %s %d %d %s %s", hs(h), d.kind, d.size, d.tag, hlist(d.inner), hlist(d.need)), "ok")
-	}
-	for _, h := range order {
-		d := desc[h]
 		if d.isLeaf && kind[h] == kAcct {
-			w.r.out.Emit(fmt.Sprintf("leaf %s %s %s", hs(h), hs(d.aRoot), hs(d.aCode)), "ok")
+			w.r.out.Emit(fmt.Sprintf("insl %s %s %d %d %s %s %s %s", hs(h), d.kind, d.size, d.tag, hlist(d.inner), hlist(d.need), hs(d.aRoot), hs(d.aCode)), "ok")
+		} else {
+			w.r.out.Emit(fmt.Sprintf("ins %s %s %d %d %s %s", hs(h), d.kind, d.size, d.tag, hlist(d.inner), hlist(d.need)), "ok")
 		}
 	}
+}
+
+// topoOrder lists hs children-first (post-order over need-edges inside hs),
+// the order in which hasher.store / CommitTrie / InsertBlob insert them.
+func topoOrder(hsx []common.Hash, need func(common.Hash) []common.Hash) []common.Hash {
+	in := map[common.Hash]bool{}
+	for _, h := range hsx {
+		in[h] = true
+	}
+	done := map[common.Hash]bool{}
+	var out []common.Hash
+	var visit func(h common.Hash)
+	visit = func(h common.Hash) {
+		if done[h] || !in[h] {
+			return
+		}
+		done[h] = true
+		for _, c := range need(h) {
+			visit(c)
+		}
+		out = append(out, h)
+	}
+	for _, h := range hsx {
+		visit(h)
+	}
+	return out
 }
 
 // viewOf unfolds root over need-edges through get (the tree a reader sees):
@@ -749,11 +811,13 @@ func (w *world) commitFrom(adb *account.AccountDB, touched map[common.Address]bo
 	durableBefore := append([]*rootRec{}, w.durable...)
 
 	w.rec.log = nil
+	w.rec.refused = nil
 	w.rec.failAt = p.failAt
 	cerr := tdb.Commit(root, false)
 	w.rec.failAt = -1
 	writes := w.rec.log
 	w.rec.log = nil
+	w.purgeInModel()
 	r.stats["phys_writes"] += len(writes)
 	if len(writes) > 1 {
 		r.stats["multi_batch_commits"]++
@@ -771,7 +835,7 @@ func (w *world) commitFrom(adb *account.AccountDB, touched map[common.Address]bo
 		r.step(fmt.Sprintf("trieDB.Commit %x ok: %d batches", root[:4], len(writes)))
 	} else {
 		r.stats["failed_commits"]++
-		r.out.Emit(fmt.Sprintf("fail %s %d %s", hs(root), p.failAt, traceString(writes)), "err "+traceString(writes))
+		r.out.Emit(fmt.Sprintf("fail %s %d %s %s", hs(root), p.failAt, traceString(writes), batchString(w.rec.refused)), "err "+traceString(writes))
 		r.step(fmt.Sprintf("trieDB.Commit %x FAILED after %d batches", root[:4], len(writes)))
 	}
 
@@ -862,6 +926,7 @@ func (w *world) commitFrom(adb *account.AccountDB, touched map[common.Address]bo
 		err2 := tdb.Commit(root, false)
 		writes2 := w.rec.log
 		w.rec.log = nil
+		w.purgeInModel()
 		if err2 != nil {
 			r.violate("retry-failed", "second commit attempt failed: "+err2.Error())
 		} else {
